@@ -59,7 +59,11 @@ def lex_line(text: str, comment_symbol: str = ";"):
 
 
 def canon_stmt(text: str) -> str:
-    codes, words = lex_line(text)
+    try:
+        codes, words = lex_line(text)
+    except ValueError:
+        # not a block of address words: reported by the harness as malformed output, never silently canonicalised
+        return "!BAD(" + text.replace(" ", "_").replace(";", "|").replace(",", "|") + ")"
     ax = [(k, v) for k, v in words if k in "XYZ"]
     ax.sort(key=lambda e: "XYZ".index(e[0]))
     other = sorted((k, show(v)) for k, v in words if k not in "XYZ")
@@ -100,11 +104,12 @@ class Impl:
     PLANES = ["xy", "yz", "zx"]
     FMODES = ["1/time", "units/min", "units/rev"]
 
-    def __init__(self):
+    def __init__(self, dp: int = 5):
         from gscrib import GCodeBuilder
 
+        self.dp = dp
         self.rec = Recorder()
-        self.g = GCodeBuilder(output=None, print_lines=False, decimal_places=5, line_endings="\n")
+        self.g = GCodeBuilder(output=None, print_lines=False, decimal_places=dp, line_endings="\n")
         self.g.add_writer(self.rec.make())
         self.ctx = []
         self.hooks = {}
@@ -146,7 +151,14 @@ class Impl:
                 return inner(origin, target, params, state)
         else:
             raise ValueError(spec)
-        return hook
+
+        class _Owner:
+            """hooks are registered as bound methods: `obj.on_move` is a fresh (equal, not identical) object each time"""
+
+            def on_move(self, origin, target, params, state, _f=hook):
+                return _f(origin, target, params, state)
+
+        return _Owner()
 
     @staticmethod
     def model_hook_spec(spec: str) -> str:
@@ -168,10 +180,16 @@ class Impl:
         ws = line.split()
         op, args = ws[0], ws[1:]
         out = "ok"
+        if op == "ehalt" and len(args) > 1:
+            static_line = "ehalt " + args[0]     # the model has no message text: whatever happens, this is its op
+        else:
+            static_line = None
         try:
             line = self._call(op, args, line)
         except Exception as e:  # noqa
             out = type(e).__name__
+            if static_line:
+                line = static_line
             if op in ("enter",) and self.ctx and self.ctx[-1] is None:
                 self.ctx.pop()
         new = self.rec.chunks[n0:]
@@ -351,7 +369,10 @@ class Impl:
             else:
                 g.halt(mode, **kw)
         elif op == "ehalt":
-            g.emergency_halt("harness", args[0] == "1")
+            n = int(args[1]) if len(args) > 1 else 0
+            msg = "harness" if not n else ("tool crash: " + "x" * n)[:n]
+            g.emergency_halt(msg, args[0] == "1")
+            line = "ehalt " + args[0]
         elif op == "bed":
             g.set_bed_temperature(parse_val(args[0]))
         elif op == "hotend":
@@ -396,7 +417,7 @@ class Impl:
             if args[0] == "enter":
                 if spec not in self.hooks:
                     self.hooks[spec] = self._mk_hook(spec)
-                cm = g.move_hook(self.hooks[spec])
+                cm = g.move_hook(self.hooks[spec].on_move)
                 cm.__enter__()
                 self.hook_ctx = getattr(self, "hook_ctx", []) + [(spec, cm)]
                 line = f"hook add {self.model_hook_spec(spec)}"
@@ -420,10 +441,10 @@ class Impl:
             if args[0] == "add":
                 if spec not in self.hooks:
                     self.hooks[spec] = self._mk_hook(spec)
-                g.add_hook(self.hooks[spec])
+                g.add_hook(self.hooks[spec].on_move)
             else:
                 if spec in self.hooks:
-                    g.remove_hook(self.hooks[spec])
+                    g.remove_hook(self.hooks[spec].on_move)
             line = f"hook {args[0]} {self.model_hook_spec(spec)}"
         else:
             raise RuntimeError(f"harness: unknown op {op}")
